@@ -7,7 +7,9 @@ import (
 	"errors"
 	"fmt"
 	"io"
+	"reflect"
 	"runtime"
+	"unsafe"
 
 	"github.com/tuneinsight/lattigo/v6/utils/buffer"
 
@@ -63,10 +65,10 @@ func (c08) Runs(tier string) int {
 }
 func (c08) Describe() core.Description {
 	return core.Description{
-		Level: "fault_enumeration",
-		Rule: "per run: drawn parameter set (LogN 4-6, 1-4 Q primes, 0-2 P primes of unequal size), 1-4 drawn objects of the serializable-type catalog; each is written through every entry point, read back through a drawn reader flavour under a drawn chunk schedule into fresh and dirty receivers, then subjected to drawn faults (truncation, sink failure, header corruption); ~1 in 12 runs enumerates every truncation offset and every sink-failure offset of one encoding. Non-trivial = at least one fault fired and at least one oracle evaluated; distinct = distinct choice traces",
-		Real: []string{"every BinarySize/WriteTo/ReadFrom/MarshalBinary/UnmarshalBinary/MarshalJSON/UnmarshalJSON of the catalogued lattigo types", "utils/buffer readers/writers", "utils/structs Vector/Matrix/Map", "bufio"},
-		Stub: []string{"byte stream (simio.Reader: chunking, early end, broken transport)", "sink (simio.Sink: failure after k bytes)", "entropy source (deterministic crypto/rand.Reader)"},
+		Level:  "fault_enumeration",
+		Rule:   "per run: drawn parameter set (LogN 4-6, 1-4 Q primes, 0-2 P primes of unequal size), 1-4 drawn objects of the serializable-type catalog; each is written through every entry point, read back through a drawn reader flavour under a drawn chunk schedule into fresh and dirty receivers, then subjected to drawn faults (truncation, sink failure, header corruption); ~1 in 12 runs enumerates every truncation offset and every sink-failure offset of one encoding. Non-trivial = at least one fault fired and at least one oracle evaluated; distinct = distinct choice traces",
+		Real:   []string{"every BinarySize/WriteTo/ReadFrom/MarshalBinary/UnmarshalBinary/MarshalJSON/UnmarshalJSON of the catalogued lattigo types", "utils/buffer readers/writers", "utils/structs Vector/Matrix/Map", "bufio"},
+		Stub:   []string{"byte stream (simio.Reader: chunking, early end, broken transport)", "sink (simio.Sink: failure after k bytes)", "entropy source (deterministic crypto/rand.Reader)"},
 		Assume: []string{"a plain io.Reader handed to ReadFrom is re-wrapped by the library in a read-ahead bufio.Reader, so back-to-back decoding is demanded only through one caller-owned buffer.Reader", "allocation bound under corruption: 1 GiB for encodings below 10 MB (format independent)"},
 	}
 }
@@ -409,6 +411,13 @@ func (p c08) readPhase(ctx *core.RunCtx, g *c08Gen, e *c08Entry, v ser, data []b
 				ctx.Harness("generator of %s panicked in %s: %s", e.Name, site, msg)
 			}
 			ctx.Count("fault.dirty-receiver", 1)
+			if ch.Chance("shrunk-receiver", 1, 3) {
+				// a receiver that was resized to fewer rows after use (what Resize / level dropping does): shorter
+				// than its capacity, with the old rows still behind the length
+				if n := shrinkRows(reflect.ValueOf(recv), 1+ch.Draw("shrunk-rows", 3), 0); n > 0 {
+					ctx.Count("fault.receiver-shorter-than-capacity", 1)
+				}
+			}
 		} else {
 			recv = e.New()
 		}
@@ -851,4 +860,48 @@ func (p c08) jsonPhase(ctx *core.RunCtx, g *c08Gen, e *c08Entry, v ser) {
 			}
 		}
 	}
+}
+
+// shrinkRows re-slices every slice of slices reachable from v to at most rows elements, keeping its
+// capacity (the state a polynomial is in after Resize to a lower level). It returns the number of slices shortened.
+func shrinkRows(v reflect.Value, rows int, depth int) int {
+	if depth > 12 || !v.IsValid() {
+		return 0
+	}
+	n := 0
+	switch v.Kind() {
+	case reflect.Ptr, reflect.Interface:
+		if !v.IsNil() {
+			n += shrinkRows(v.Elem(), rows, depth+1)
+		}
+	case reflect.Struct:
+		for i := 0; i < v.NumField(); i++ {
+			f := v.Field(i)
+			if !f.CanSet() && f.CanAddr() {
+				f = reflect.NewAt(f.Type(), unsafe.Pointer(f.UnsafeAddr())).Elem()
+			}
+			n += shrinkRows(f, rows, depth+1)
+		}
+	case reflect.Slice:
+		if v.IsNil() {
+			return 0
+		}
+		if v.Type().Elem().Kind() == reflect.Slice && v.Type().Elem().Elem().Kind() != reflect.Slice && v.Len() > rows && v.CanSet() {
+			v.Set(v.Slice(0, rows))
+			n++
+		}
+		if k := v.Type().Elem().Kind(); k == reflect.Struct || k == reflect.Slice || k == reflect.Ptr || k == reflect.Interface {
+			for i := 0; i < v.Len(); i++ {
+				n += shrinkRows(v.Index(i), rows, depth+1)
+			}
+		}
+	case reflect.Map:
+		for _, k := range v.MapKeys() {
+			e := v.MapIndex(k)
+			if e.Kind() == reflect.Ptr || e.Kind() == reflect.Interface {
+				n += shrinkRows(e, rows, depth+1)
+			}
+		}
+	}
+	return n
 }
